@@ -98,7 +98,7 @@ func regCmd(args []string) error {
 		if strings.HasPrefix(strings.TrimSpace(sc.Stack), "http") && strings.Count(sc.Stack, "http") == 1 {
 			rawURL = env.serverURL
 		}
-		w := &world{serverURL: srvURL, rawURL: rawURL, cat: cat, top: top, writers: map[string]BlobWriterT{}, ids: map[string]string{}, out: enc, rec: rec, quiesce: env.quiesce, setOp: env.curOp.Store, resetConns: env.resetConns}
+		w := &world{serverURL: srvURL, rawURL: rawURL, blobTypes: strings.Count(sc.Stack, "http") == 0, cat: cat, top: top, writers: map[string]BlobWriterT{}, ids: map[string]string{}, out: enc, rec: rec, quiesce: env.quiesce, setOp: env.curOp.Store, resetConns: env.resetConns}
 		if *snap {
 			for _, m := range env.mems {
 				w.snapAll = append(w.snapAll, m)
@@ -150,10 +150,19 @@ func regCmd(args []string) error {
 		defer sf.Close()
 		sc := bufio.NewScanner(sf)
 		sc.Buffer(make([]byte, 1<<20), 1<<26)
+		nscen := 0
 		for sc.Scan() {
 			var s Scenario
 			if err := json.Unmarshal(sc.Bytes(), &s); err != nil {
 				return fmt.Errorf("scenario: %v", err)
+			}
+			// the model has no notion of a blob's media type: TLC-chosen pushes are given one here, so that
+			// re-pushes of the same content differ in it
+			nscen++
+			for i := range s.Ops {
+				if s.Ops[i].Op == "PushBlob" && s.Ops[i].BMT == "" {
+					s.Ops[i].BMT = []string{"", "other2", "image", ""}[(nscen+i)%4]
+				}
 			}
 			for _, st := range stackList {
 				s.Stack = st
